@@ -257,7 +257,15 @@ class RegWorld(World):
             self.log('call-done', cid=cid, ret='raised', exc=exc_brief(e), where=innermost_ndn_frame(e), is_bool=False)
 
     def op_call(self, op):
-        self.spawn(self._call(op))
+        task = self.spawn(self._call(op))
+        if op.get('give_up_us') is not None:
+            # the caller gives up (a wait_for() around the call times out, its task group is cancelled)
+            def give_up():
+                if not task.done():
+                    self.log('give-up', cid=op['cid'])
+                    self.stats['fault.caller_gives_up'] += 1
+                    task.cancel()
+            self.after(op['give_up_us'], give_up)
 
     def op_route(self, op):
         prefix = '/' + '/'.join(op['prefix'])
@@ -391,6 +399,8 @@ class RegWorld(World):
         routes = [e for e in ev if e['k'] == 'route' and 'error' not in e]
         reconnects = [e for e in ev if e['k'] == 'reconnect']
         cmds = self.commands
+        # calls whose caller gave up (the front-ends turn the cancellation of a command in flight into a False result)
+        gave_up = {e['cid'] for e in ev if e['k'] == 'give-up'}
         # (0) nobody raised, everybody finished, app start-up task survived
         for e in ev:
             if e['k'] == 'main-done' and not e['ok'] and not str(e.get('exc', '')).startswith('NetworkError'):
@@ -418,6 +428,13 @@ class RegWorld(World):
             for r in routes:
                 expected[('register', tuple(pfx_comps(r['prefix'])))] += 1
             actual = collections.Counter((c.verb, tuple(c.prefix or ())) for c in cmds)
+            for cid, c in calls.items():
+                if cid in gave_up:
+                    # its caller gave up: the command was sent or was not (its prefix is used by no other call)
+                    key = (c['verb'], tuple(pfx_comps(c['prefix'])))
+                    expected.pop(key, None)
+                    if actual.get(key, 0) <= 1:
+                        actual.pop(key, None)
             if expected != actual:
                 miss = expected - actual
                 extra = actual - expected
@@ -454,6 +471,10 @@ class RegWorld(World):
             eb = [x for x in ev if x['k'] == 'command' and x['idx'] == b.idx][0]
             free_at = a.answered_t if a.answered_t is not None else a.t + LIFETIME_US
             free_at = min(free_at, a.t + LIFETIME_US)
+            for g in ev:
+                if g['k'] == 'give-up' and tuple(pfx_comps(calls[g['cid']]['prefix'])) == tuple(a.prefix or ()) \
+                        and calls[g['cid']]['verb'] == a.verb and g['t'] >= a.t:
+                    free_at = min(free_at, g['t'])
             # (with a wall clock that moves between reads, a lifetime measured on it ends that much earlier in loop time)
             slack = W_US
             if ea['conn'] == eb['conn'] and b.t < free_at - slack:
@@ -469,7 +490,7 @@ class RegWorld(World):
             by_key[(c.verb, tuple(c.prefix or ()))].append(c)
         for cid, c in calls.items():
             d = dones.get(cid)
-            if d is None or d['ret'] in ('raised', 'cancelled') or not c['running']:
+            if d is None or d['ret'] in ('raised', 'cancelled') or not c['running'] or cid in gave_up:
                 continue
             key = (c['verb'], tuple(pfx_comps(c['prefix'])))
             same = [x for x in calls.values() if (x['verb'], tuple(pfx_comps(x['prefix']))) == key]
@@ -567,6 +588,18 @@ def generate(rng, seed, tier='quick'):
         else:
             pfx = registered.pop(rng.randrange(len(registered)))
             ops.append({'at': t + (0 if fe == 'v2' else 0), 'op': 'unregister', 'cid': cid, 'prefix': pfx})
+    if rng.random() < 0.2 and ops:
+        # one caller gives up while its call is queued behind the others, waiting for a new clock reading, or in flight;
+        # the calls made afterwards must not suffer
+        base = rng.choice(ops)['at']
+        cid += 1
+        ops.append({'at': base, 'op': 'register', 'cid': cid, 'prefix': ['g', rng.choice(['x', 'y'])], 'with_handler': True,
+                    'give_up_us': rng.choice([1, 60, 150, 300, 600, 1100, 2500, 40000])})
+        for k in range(rng.randint(1, 2)):
+            cid += 1
+            ops.append({'at': base + rng.choice([3000, 5000, 60000]) + k, 'op': 'register', 'cid': cid, 'prefix': ['h', 'xy'[k]],
+                        'with_handler': True})
+        n_calls += 3
     if rng.random() < 0.15:
         # a call made before the connection is up: documented NetworkError, and it must not spoil the calls that follow
         ops.append({'at': 0, 'op': 'register', 'cid': 0, 'prefix': ['early', rng.choice(['x', 'y'])], 'with_handler': True,
